@@ -354,7 +354,7 @@ func (so *sliceOwn) structCopyAliases(f *types.Var) string {
 // checkAppendAliasing is rule C13.1 (reported as C05.6 under the concurrency property): no append of the fox and
 // clientip packages extends a slice whose backing array may be shared with another object.
 func checkAppendAliasing(w *World, r *Report, id string) {
-	ru := r.Rule(id, "no append onto an aliased slice: the first argument of every append (packages fox and clientip) is fresh, clipped to cap == len, or loaded from a cell (field or variable) that is only ever assigned fresh, clipped or self-derived values", 40)
+	ru := r.Rule(id, "no append onto an aliased slice: the first argument of every append (packages fox and clientip) is fresh, clipped to cap == len, or loaded from a cell (field or variable) that is only ever assigned fresh, clipped or self-derived values", 20)
 	ru.Idiom("make / composite literal / nil", "slices.Clone, slices.Clip", "x[:len(x):len(x)]", "self-append x = append(x, ...) and reslice x = x[:k] on an owned cell", "append([]T{...}, x...)")
 	inScope := func(fn *ssa.Function) bool {
 		return (w.InPkg(fn, modulePath) || w.InPkg(fn, modulePath+"/clientip")) && !isTestHelper(w, fn)
